@@ -535,6 +535,75 @@ def translate_cycle(repo):
             "Definition g_external (strong owned : N) : bool := %s.\n" % (path, ";\n    ".join(body), pred))
 
 
+# ---------------------------------------------------------------------------------------------------
+# drop.rs: the dispatch of `impl Drop for Rc<T>` -- which of the three teardown paths a drop takes, and
+# that no trace runs for an object without adoptions (C14) -- as a small decision language.
+DROP_CONDS = [(r"if self\.inner\(\)\.is_dead\(\) \{", "DIsDead"),
+              (r"if self\.inner\(\)\.links\(\)\.borrow\(\)\.is_empty\(\) \{", "DLinksEmpty"),
+              (r"if let Some\(cycle\) = Self::orphaned_cycle\(self\) \{", "DOrphaned")]
+DROP_CMDS = [(r"self\.inner\(\)\.dec_strong\(\);", "DDecStrong"),
+             (r"drop_unreachable\(self\);", "DCall DUnreachable"),
+             (r"drop_unreachable_with_adoptions\(self\);", "DCall DUnreachableAdopt"),
+             (r"drop_cycle\(cycle\);", "DCall DCycle"),
+             (r"return;", "DReturn")]
+
+
+def drop_stmts(txt):
+    out = []
+    txt = txt.strip()
+    while txt:
+        m = re.match(r"(?:debug|trace)!\((?:[^()]|\([^()]*\))*\);", txt)     # logging: no behaviour
+        if m:
+            txt = txt[m.end():].strip()
+            continue
+        m = re.match(r"unsafe \{", txt)
+        if m:
+            depth, i = 1, m.end()
+            while depth:
+                depth += txt[i] == "{"
+                depth -= txt[i] == "}"
+                i += 1
+            out += drop_stmts(txt[m.end():i - 1])
+            txt = txt[i:].strip()
+            continue
+        for pat, name in DROP_CONDS:
+            m = re.match(pat, txt)
+            if m:
+                depth, i = 1, m.end()
+                while depth:
+                    depth += txt[i] == "{"
+                    depth -= txt[i] == "}"
+                    i += 1
+                out.append("DIf %s [%s]" % (name, "; ".join(drop_stmts(txt[m.end():i - 1]))))
+                txt = txt[i:].strip()
+                if txt.startswith("else"):
+                    raise Unsupported("else branch in Rc::drop")
+                break
+        else:
+            for pat, name in DROP_CMDS:
+                m = re.match(pat, txt)
+                if m:
+                    out.append(name)
+                    txt = txt[m.end():].strip()
+                    break
+            else:
+                raise Unsupported("Rc::drop statement outside the subset: %r" % txt[:70])
+    return out
+
+
+def translate_drop(repo):
+    path = repo + "/src/drop.rs"
+    src = re.sub(r"//[^\n]*", "", open(path).read())        # doc comments contain example `fn drop`s
+    m = re.search(r"unsafe impl<#\[may_dangle\] T> Drop for Rc<T> \{", src)
+    if not m:
+        raise Unsupported("impl Drop for Rc<T> not found")
+    body = _norm(_fn_body(src[m.end():], r"fn drop\(&mut self\) \{"))
+    sts = drop_stmts(body)
+    return ("(* GENERATED by tools/rs2v.py from %s (impl Drop for Rc<T>) -- do not edit. *)\n"
+            "From Coq Require Import List. Import ListNotations.\nFrom Gen Require Import DropLang.\n\n"
+            "Definition g_rc_drop : list dstmt :=\n  [ %s ].\n" % (path, ";\n    ".join(sts)))
+
+
 if __name__ == "__main__":
     # rs2v.py <repo> <outdir> <counters|adopt>   (no outdir: print)
     import os
@@ -546,8 +615,10 @@ if __name__ == "__main__":
             text, name = translate(repo)[0], "Counters.v"
         elif part == "adopt":
             text, name = translate_adopt(repo), "AdoptGen.v"
-        else:
+        elif part == "cycle":
             text, name = translate_cycle(repo), "CycleGen.v"
+        else:
+            text, name = translate_drop(repo), "DropGen.v"
     except (Unsupported, ValueError, IndexError) as e:
         print("rs2v (%s): outside the translated subset: %s" % (part, e), file=sys.stderr)
         sys.exit(2)
